@@ -80,9 +80,25 @@ def gen_case(c, g):
             # pre-tasks and init tasks on the SAME node (the walk handles them in two separate steps)
             if light and c.rng.random() < 0.5:
                 desc["actions"].append(dict(a="pre", n=r, ids=c.rng.sample(light, 1)))
+            if c.rng.random() < 0.3:
+                # sealed (and, maybe, identified) BEFORE being submitted: instance() then submit()
+                desc["actions"].append(dict(a="seal", n=r))
+                if c.rng.random() < 0.6:
+                    desc["actions"].append(dict(a="ids", n=r))
             desc["actions"].append(dict(a="submit", n=r, init=init))
         else:
             desc["actions"].append(dict(a="seal", n=r))
+            if c.rng.random() < 0.2:
+                # identified, unsealed, modified and sealed again
+                desc["actions"].append(dict(a="ids", n=r))
+                desc["actions"].append(dict(a="unseal", n=r))
+                slots = [(s, kd) for s, kd in SLOTS[desc["nodes"][r]["cls"]].items() if s not in READONLY and s != "ddd"]
+                if slots:
+                    s_, kd = c.rng.choice(slots)
+                    v = g.value(kd, [])
+                    if v is not None and v["t"] not in ("ref", "out"):
+                        desc["actions"].append(dict(a="set", n=r, name=s_, v=v))
+                desc["actions"].append(dict(a="seal", n=r))
     ops = []
     n = len(desc["nodes"])
     light = [i for i in range(n) if desc["nodes"][i]["cls"] in LIGHT]
@@ -250,6 +266,15 @@ def run(c: Check):
     bad = c.corr_shards("corr", HEADER, coq_cases, g_kcase, "check_kcase", shard=40)
     c.extra["disagreeing_cases"] = [dict(desc=coq_cases[i]["desc"], ops=coq_cases[i]["ops"],
                                          answers=coq_cases[i]["answers"]) for i in bad[:5]]
+    # the hypothesis of C14_coherent_under_edits (ginv), evaluated by the model on each exported state
+    diags = c.nat_shards("inv", HEADER, coq_cases, g_kcase, "diag_kcase", shard=40)
+    c.extra["states_checked_against_invariant"] = sum(1 for d in diags if d is not None)
+    for i, diag in enumerate(diags):
+        if diag:
+            pairs = list(zip(diag[0::2], diag[1::2]))
+            c.violation("C14:state-invariant" + identgen.selfmark_suffix(coq_cases[i]["desc"], pairs),
+                        "the state the history starts from breaks the invariant of the cache theorems: " + identgen.diag_text(pairs),
+                        dict(desc=coq_cases[i]["desc"], ops=[], diagnosis=pairs))
     c.level_assumptions = [
         "SHA-256 is a parameter of the theorems (Gallina SHA-256 validated against hashlib by the correspondence)",
         "frozen_identity is proved for acyclic graphs (identifiers = the fuel-free table specification); cyclic graphs are covered by correspondence + oracle",
